@@ -54,7 +54,17 @@ class ModelsReadV1(Contract):
         ci = c.interp.repo.find_class(MODELS)
         return dict(cls=ClassVal(ci), directory='MODELDIR', filters=filters, distance_range=Quantity(self.dr, U['kpc']), remove_resolved=None)
 
+    def result(self, c, a):
+        # at a call site (Models.read): the models object of the package, described by the caller's set-up
+        m = getattr(c.interp, 'package_models', None)
+        if m is None:
+            from .models import make_models
+            m = make_models(c, '2d')
+        return m
+
     def requires(self, c, a):
+        if not hasattr(self, 'dr'):
+            return {}              # call site: the conditions on the package / range are conditions on the data
         d = c.A(self.dr)
         return {'range': band(d[0] > 0, d[0] <= d[1]), 'step_positive': self.step > 0,
                 'apertures_positive': band(self.theta[0] > 0, self.theta[1] > 0)}
@@ -63,6 +73,8 @@ class ModelsReadV1(Contract):
         return {'Exception': ('may', True)}       # a trial aperture below the smallest tabulated one is refused (C13)
 
     def ensures(self, c, a, result, old):
+        if not hasattr(self, 'dr'):
+            return {}
         d = c.A(self.dr)
         d0, d1 = d[0], d[1]
         q = c.attr(result, '_distances')
@@ -115,11 +127,15 @@ class ModelsReadV2(ModelsReadV1):
     assume_pre_of = (CF + '.interpolate', 'sedfitter.sed.cube.BaseCube.read')
 
     def requires(self, c, a):
+        if not hasattr(self, 'dr'):
+            return {}
         if self.variant_ == 'one_wavelength':
             return _WavelengthCase.requires(self, c, a)
         return ModelsReadV1.requires(self, c, a)
 
     def ensures(self, c, a, result, old):
+        if not hasattr(self, 'dr'):
+            return {}
         if self.variant_ == 'one_wavelength':
             return _WavelengthCase.ensures(self, c, a, result, old)
         return ModelsReadV1.ensures(self, c, a, result, old)
